@@ -3,6 +3,7 @@
 R15a  effect-free entry points: no XML / container-part mutation is reachable from any read-only entry point
       (interprocedural effect analysis EFF, flag-constant context sensitivity, receiver freshness)
 R15b  module state used by the Markdown export is reset on every normal path
+R15c  no report shares per-call state (nested-mutable module/class constants leave a function only through deepcopy; no mutable default changed or handed on)
 """
 
 from __future__ import annotations
@@ -153,9 +154,177 @@ def r15b(ctx):
         ctx.rules["R15b"].floor = 0
 
 
+_MUT = (ast.List, ast.Dict, ast.Set, ast.ListComp, ast.DictComp, ast.SetComp)
+_PURE = {"len", "sorted", "iter", "isinstance", "bool", "str", "repr", "print", "enumerate", "zip", "min", "max", "sum", "any", "all", "tuple", "frozenset", "deepcopy", "id", "type", "format"}
+_SHALLOW = {"copy", "dict", "list", "set"}
+
+_FIXTURE_C = '''
+DEFAULTS = {"notes": [], "level": 0}
+FLAT = {"a": 1}
+def bad_copy(self, context=None):
+    if not context:
+        context = DEFAULTS.copy()
+    return render(self, context)
+def bad_dict(self):
+    state = dict(DEFAULTS)
+    return render(self, state)
+def bad_alias(self):
+    return render(self, DEFAULTS)
+def bad_default(self, seen=[]):
+    seen.append(self)
+    return len(seen)
+def ok_deep(self):
+    return render(self, deepcopy(DEFAULTS))
+def ok_flat(self):
+    return render(self, FLAT.copy())
+def ok_read(self):
+    return DEFAULTS["level"] + len(DEFAULTS["notes"])
+def ok_local(self):
+    probe = DEFAULTS.copy()
+    return sorted(probe)
+'''
+
+
+def _nested_mutable_globals(tree: ast.Module) -> dict[str, ast.AST]:
+    """module- and class-level names bound to a mutable display that holds another mutable display (or gets one stored under a key by a function of the module)."""
+    out = {}
+    flat = {}
+    scopes = [tree.body] + [c.body for c in tree.body if isinstance(c, ast.ClassDef)]
+    for body in scopes:
+        for st in body:
+            if isinstance(st, (ast.Assign, ast.AnnAssign)) and st.value is not None and isinstance(st.value, _MUT):
+                tg = st.targets[0] if isinstance(st, ast.Assign) else st.target
+                if isinstance(tg, ast.Name):
+                    flat[tg.id] = st
+                    if any(x is not st.value and isinstance(x, _MUT) for x in ast.walk(st.value)):
+                        out[tg.id] = st
+    for n in ast.walk(tree):
+        if isinstance(n, ast.Assign) and isinstance(n.value, _MUT):
+            for t in n.targets:
+                if isinstance(t, ast.Subscript) and isinstance(t.value, ast.Name) and t.value.id in flat:
+                    out[t.value.id] = flat[t.value.id]
+    return out
+
+
+def _shared_state_sites(tree: ast.Module, nested: dict[str, ast.AST]):
+    """(function node, site node, text) where a nested-mutable global is shallow-copied or aliased and the result leaves the function
+    (argument of a call, return, yield, attribute store), plus mutable default arguments that the function mutates or lets escape."""
+    out = []
+
+    def names_g(e):
+        if isinstance(e, ast.Name) and e.id in nested:
+            return e.id
+        if isinstance(e, ast.Attribute) and e.attr in nested and isinstance(e.value, ast.Name):
+            return e.attr
+        return None
+
+    def shallow(e):
+        """the global a value is a shallow copy / alias of, or None"""
+        g = names_g(e)
+        if g:
+            return g
+        if isinstance(e, ast.Call):
+            if isinstance(e.func, ast.Attribute) and e.func.attr == "copy" and not e.args:
+                return names_g(e.func.value)
+            if call_name(e) in _SHALLOW and len(e.args) == 1:
+                return names_g(e.args[0])
+        if isinstance(e, ast.Dict) and any(k is None and names_g(v) for k, v in zip(e.keys, e.values)):
+            return next(names_g(v) for k, v in zip(e.keys, e.values) if k is None and names_g(v))
+        if isinstance(e, ast.BinOp) and isinstance(e.op, ast.BitOr):
+            return names_g(e.left) or names_g(e.right)
+        if isinstance(e, ast.IfExp):
+            return shallow(e.body) or shallow(e.orelse)
+        if isinstance(e, ast.BoolOp):
+            for v in e.values:
+                if shallow(v):
+                    return shallow(v)
+        return None
+
+    for fn in [n for n in ast.walk(tree) if isinstance(n, (ast.FunctionDef, ast.AsyncFunctionDef))]:
+        tainted: dict[str, tuple[str, ast.AST]] = {}
+        a = fn.args
+        pos = a.posonlyargs + a.args
+        for arg, d in list(zip(pos[len(pos) - len(a.defaults):], a.defaults)) + [(x, d) for x, d in zip(a.kwonlyargs, a.kw_defaults) if d is not None]:
+            if isinstance(d, _MUT) or isinstance(d, ast.Call) and call_name(d) in ("list", "dict", "set") and not d.args:
+                tainted[arg.arg] = (f"mutable default of parameter {arg.arg}", d)
+        for st in walk_no_nested(fn):
+            if isinstance(st, (ast.Assign, ast.AnnAssign)) and st.value is not None:
+                g = shallow(st.value)
+                if g:
+                    for t in (st.targets if isinstance(st, ast.Assign) else [st.target]):
+                        if isinstance(t, ast.Name):
+                            tainted[t.id] = (f"shallow copy/alias of {g}", st)
+                        elif isinstance(t, ast.Attribute):
+                            out.append((fn, st, f"`{norm(st, 60)}` stores a shallow copy/alias of {g}"))
+
+        def esc(e):
+            g = shallow(e)
+            if g:
+                return f"shallow copy/alias of {g}", e
+            if isinstance(e, ast.Name) and e.id in tainted:
+                return tainted[e.id]
+            return None
+
+        for n in walk_no_nested(fn):
+            if isinstance(n, ast.Call) and call_name(n) not in _PURE | _SHALLOW and not (isinstance(n.func, ast.Attribute) and n.func.attr in ("copy", "get", "keys", "items", "values")):
+                for x in list(n.args) + [k.value for k in n.keywords]:
+                    r = esc(x)
+                    if r:
+                        out.append((fn, n, f"`{norm(n, 60)}` receives a {r[0]}"))
+                # mutation of a mutable default through a method (seen.append(x))
+                if isinstance(n.func, ast.Attribute) and isinstance(n.func.value, ast.Name) and n.func.value.id in tainted and tainted[n.func.value.id][0].startswith("mutable default") \
+                        and n.func.attr in ("append", "extend", "add", "update", "insert", "setdefault", "pop", "remove", "clear"):
+                    out.append((fn, n, f"`{norm(n, 60)}` changes the {tainted[n.func.value.id][0]}"))
+            elif isinstance(n, (ast.Return, ast.Yield)) and n.value is not None:
+                r = esc(n.value)
+                if r:
+                    out.append((fn, n, f"`{norm(n, 60)}` hands out a {r[0]}"))
+            elif isinstance(n, ast.Assign) and isinstance(n.targets[0], ast.Subscript) and isinstance(n.targets[0].value, ast.Name) and n.targets[0].value.id in tainted \
+                    and tainted[n.targets[0].value.id][0].startswith("mutable default"):
+                out.append((fn, n, f"`{norm(n, 60)}` changes the {tainted[n.targets[0].value.id][0]}"))
+    return out
+
+
+def r15c(ctx):
+    """A report starts from state of its own.
+
+    "Calling them twice gives the same answer": the text exporters thread a context (foot-notes, end-notes, annotations, images collected so
+    far) through the element tree and append to its lists.  Each top-level call builds that context afresh.  A module- or class-level
+    template handed out through `.copy()`, `dict(...)`, `{**T}` or by name shares the inner lists between all calls, and a mutable default
+    argument is the same object on every call: the second export then repeats the notes of the first.  Rule (expected count 0; a fixture
+    with four violating and four clean functions is evaluated on every run): a module/class-level mutable that holds mutable values
+    leaves a function only through deepcopy; no mutable default argument is changed or handed on.
+    """
+    repo = ctx.repo
+    ctx.rule("R15c", "no report shares per-call state: nested-mutable module/class constants leave a function only through deepcopy; no mutable default argument is changed or handed on", floor=100)
+    tree = ast.parse(_FIXTURE_C)
+    got = sorted({fn.name for fn, _, _ in _shared_state_sites(tree, _nested_mutable_globals(tree))})
+    if got != ["bad_alias", "bad_copy", "bad_default", "bad_dict"]:
+        raise AnalysisError(f"R15c fixture: shared-state detector broken: {got}")
+    nested_all: dict[str, str] = {}
+    for m in repo.modules.values():
+        for k in _nested_mutable_globals(m.tree):
+            nested_all[k] = m.relpath
+    ctx.extra["nested_mutable_constants"] = nested_all
+    for m in repo.modules.values():
+        nested = {k: None for k in nested_all}
+        sites = _shared_state_sites(m.tree, nested) if True else []
+        bad_by_fn: dict[int, list] = {}
+        for fn, n, why in sites:
+            bad_by_fn.setdefault(id(fn), []).append((fn, n, why))
+        for f in m.all_funcs:
+            bad = bad_by_fn.get(id(f.node), [])
+            ctx.instance("R15c", f"{f.file}:{f.ident}", "no shared per-call state handed on", ok=not bad, nontrivial=bool(bad), line=f.node.lineno)
+            for fn, n, why in bad[:2]:
+                ctx.report("R15c", f, n, why.split("`")[1] if "`" in why else why,
+                           f"{f.ident}: {why}; the inner lists/dicts of that object are the same objects on every call, so what one export or search "
+                           f"collects in them (notes, images, counters) is still there on the next call: the same report gives a different answer the second time")
+
+
 def run(ctx):
     r15a(ctx)
     r15b(ctx)
+    r15c(ctx)
 
 
 from ..selftest import Seed, unparse_seed  # noqa: E402
@@ -199,7 +368,15 @@ SEEDS = [
          "    def _get_formatted_text_normal(self, context: dict | None) -> str:\n        result = []\n        for live in self._get_rows():\n            live.rstrip()\n        for row in self.traverse():", "R15a"),
     Seed("Meta.as_dict stamps the generator", "fault", "src/odfdo/meta.py",
          "    def as_dict(self, full: bool = False) -> dict[str, Any]:", "    def as_dict(self, full: bool = False) -> dict[str, Any]:\n        self.set_generator_default()", "R15a"),
-    unparse_seed(_EL), unparse_seed(_T), unparse_seed(_MD), unparse_seed("src/odfdo/document.py"), unparse_seed("src/odfdo/paragraph.py"),
+    Seed("formatted-text context comes from a shallow copy of a module template", "fault", "src/odfdo/paragraph_base.py",
+         'def _get_formatted_text(\n    element: Element,', 'DEFAULT_CONTEXT: dict[str, Any] = {\n    "document": None,\n    "footnotes": [],\n    "endnotes": [],\n    "annotations": [],\n    "rst_mode": False,\n    "img_counter": 0,\n    "images": [],\n    "no_img_level": 0,\n}\n\n\ndef _get_formatted_text(\n    element: Element,', "R15c",
+         edits=[("src/odfdo/paragraph_base.py", '        if not context:\n            context = {\n                "document": None,\n                "footnotes": [],\n                "endnotes": [],\n                "annotations": [],\n                "rst_mode": False,\n                "img_counter": 0,\n                "images": [],\n                "no_img_level": 0,\n            }\n        content = _get_formatted_text(self, context, with_text=True)', '        if not context:\n            context = DEFAULT_CONTEXT.copy()\n        content = _get_formatted_text(self, context, with_text=True)')]),
+    Seed("formatted-text context comes from a deep copy of a module template", "neutral", "src/odfdo/paragraph_base.py",
+         'def _get_formatted_text(\n    element: Element,', 'DEFAULT_CONTEXT: dict[str, Any] = {\n    "document": None,\n    "footnotes": [],\n    "endnotes": [],\n    "annotations": [],\n    "rst_mode": False,\n    "img_counter": 0,\n    "images": [],\n    "no_img_level": 0,\n}\n\n\ndef _get_formatted_text(\n    element: Element,',
+         edits=[("src/odfdo/paragraph_base.py", 'from typing import Any\n', 'from copy import deepcopy\nfrom typing import Any\n'), ("src/odfdo/paragraph_base.py", '        if not context:\n            context = {\n                "document": None,\n                "footnotes": [],\n                "endnotes": [],\n                "annotations": [],\n                "rst_mode": False,\n                "img_counter": 0,\n                "images": [],\n                "no_img_level": 0,\n            }\n        content = _get_formatted_text(self, context, with_text=True)', '        if not context:\n            context = deepcopy(DEFAULT_CONTEXT)\n        content = _get_formatted_text(self, context, with_text=True)')]),
+    Seed("Header context is a mutable default argument", "fault", "src/odfdo/header.py",
+         "        context: dict | None = None,\n        simple: bool = False,\n    ) -> str:\n        if not context:", '        context: dict | None = {"document": None, "footnotes": [], "endnotes": [], "annotations": [], "rst_mode": False, "img_counter": 0, "images": [], "no_img_level": 0},\n        simple: bool = False,\n    ) -> str:\n        if not context:', "R15c"),
+    unparse_seed(_EL), unparse_seed(_T), unparse_seed(_MD), unparse_seed("src/odfdo/document.py"), unparse_seed("src/odfdo/paragraph.py"), unparse_seed("src/odfdo/paragraph_base.py"), unparse_seed("src/odfdo/header.py"),
     Seed("export works on an explicit deepcopy", "neutral", "src/odfdo/xmlpart.py",
          "        root = deepcopy(tree.getroot())\n        return pretty_indent(root)", "        copied = deepcopy(tree)\n        root = copied.getroot()\n        return pretty_indent(root)"),
     Seed("read-only method builds and edits a fresh element", "neutral", _EL,
